@@ -74,6 +74,10 @@ def run(ctx):
         ctx.sample({'kind': 'store lifecycle commands on a real server', 'events': [{k: v for k, v in e.items() if k in ('ev', 'id', 'res', 'fail', 'served', 'peers')} for e in evs[1:6]]})
     # beyond the listed clauses: the cluster version that gates features follows the registered stores (ClusterVersion.tla)
     ctx.mc('cluster', 'MC_ClusterVersion', 'MC_ClusterVersion.cfg', timeout=900)
+    # unbounded in the number of steps (60 versions, 12 feature thresholds, 3 stores): Init => IndInv, IndInv /\ Next => IndInv', IndInv => property
+    ctx.apalache('cluster', 'ClusterVersionInd', 'Init', 'IndInv', 0)
+    ctx.apalache('cluster', 'ClusterVersionInd', 'IndInv', 'IndInv', 1)
+    ctx.apalache('cluster', 'ClusterVersionInd', 'IndInv', 'FeatureOnlyWhenEveryStoreSupportsIt', 0)
     for sd in seeds:
         tr3 = os.path.join(ctx.dir, 'version_%d.ndjson' % sd)
         vlib.run_harness(['cluster', 'version', 'out=' + tr3, 'seed=%d' % sd, 'histories=%d' % (12 if q else 60), 'ops=40'], timeout=2400)
